@@ -365,7 +365,7 @@ func elemArgs(thorough bool) []ref.Bits {
 	// (i) +-j*10^k over the whole exponent range
 	for k := ref.MinQ; k <= ref.MaxQ; k++ {
 		dense := k >= -80 && k <= 60
-		if !thorough && !dense && k%61 != 0 && k > ref.MinQ+3 && k < ref.MaxQ-3 {
+		if !thorough && !dense && k%9 != 0 && k > ref.MinQ+3 && k < ref.MaxQ-3 {
 			continue
 		}
 		for _, j := range js {
@@ -408,7 +408,7 @@ func elemArgs(thorough bool) []ref.Bits {
 	}
 	// (iv) exact cases: integers (Exp10/Exp2 arguments), powers of two, powers of ten are in (i)
 	for n := int64(-6200); n <= 6200; n++ {
-		if thorough || n%37 == 0 || (n > -70 && n < 140) || n < -6150 || n > 6100 {
+		if thorough || n%5 == 0 || (n > -70 && n < 140) || n < -6150 || n > 6100 {
 			add(n < 0, big.NewInt(absI64(n)), 0)
 		}
 	}
@@ -458,7 +458,7 @@ func elemArgs(thorough bool) []ref.Bits {
 	shapes := SmallShapes()
 	for _, K := range shapes {
 		for e := ref.MinQ; e <= ref.MaxQ; e++ {
-			if thorough && e%3 == 0 || e%401 == 0 || (e > -45 && e < 12) || e < ref.MinQ+2 || e > ref.MaxQ-2 {
+			if thorough && e%3 == 0 || e%67 == 0 || (e > -45 && e < 12) || e < ref.MinQ+2 || e > ref.MaxQ-2 {
 				add(false, K, e)
 				if e > -45 && e < 5 {
 					add(true, K, e)
